@@ -171,41 +171,9 @@ def explain(known, line, ans):
     return None
 
 
-def run(ctx, vlib):
-    inv = IC.current_inventory()
-    impl = IC.build_fault(vlib)
-    model = vlib.build_model("inv")
-    rng = ctx["rng"]
-    notes, failing, diffs, known_lines = [], [], [], []
-    classes = {}
-    known = IC.load_known(vlib, "C20")
-
-    # ---- what the inventory says (names for the report; the verdict is T_C20_throwing_dtors)
-    new_dtors = None
-    new_noexcept = None
-    if inv is not None:
-        exp = IC.expected_throwing_dtors() or []
-        cur = [(d["name"], d["callees"]) for d in inv["dtors"] if d["callees"] or d["noexcept_false"]]
-        new_dtors = ["%s -> %s" % (n, ", ".join(c)) for (n, c) in cur if (n, c) not in exp]
-        gone = ["%s" % n for (n, c) in exp if (n, c) not in cur]
-        if new_dtors:
-            notes.append("destructors calling possibly-throwing code that are not in the expected list: " + "; ".join(new_dtors))
-        if gone:
-            notes.append("expected throwing destructors no longer found (rename or repair): " + "; ".join(gone))
-        expn = IC.coq_eval("expected_noexcept_callers", "InvSpec") or []
-        new_noexcept = ["%s -> %s" % (d["name"], ", ".join(d["callees"])) for d in inv.get("noexcept_fns", []) if d["name"] not in expn]
-        if new_noexcept:
-            notes.append("noexcept functions calling possibly-throwing code that are not in the expected list: " + "; ".join(new_noexcept))
-        if inv.get("errors"):
-            notes.append("inventory: clang failed on %s" % ", ".join(e["label"] for e in inv["errors"]))
-        classes["inventory: noexcept functions with a body"] = inv.get("noexcept_fn_count", 0)
-        classes["inventory: noexcept functions calling non-noexcept code"] = len(inv.get("noexcept_fns", []))
-        classes["inventory: destructors with a body"] = len(inv["dtors"])
-        classes["inventory: destructors calling non-noexcept code"] = len(cur)
-    else:
-        notes.append("inventory regeneration disabled (VERIF_NO_REGEN=1)")
-    tier = "thorough" if (not ctx.get("proofs_ok", True) or new_dtors or new_noexcept) else ctx["tier"]
-
+def one_pass(vlib, impl, model, rng, tier, known, classes):
+    """model correspondence + fault enumeration at the volume of `tier`"""
+    failing, diffs = [], []
     # ---- (c1) the scope models against the library
     cases = IC.load_corpus("C20") + gen_model_cases(rng, tier)
     cases = [c for c in cases if c.startswith(("mpmap ", "csvrows "))]
@@ -224,12 +192,10 @@ def run(ctx, vlib):
             if a.startswith(("LEAK", "CRASH", "HANG")) or (a.startswith("TERMINATE") and not explain(known, c, a)):
                 rec.update(judge="FAIL", why="the implementation ends in %s where the property demands a catchable exception" % a.split("(")[0],
                            expected="OK or EXC(<category>)")
-                if len(failing) < 10:
-                    failing.append(rec)
+                failing.append(rec)
             else:
                 rec.update(judge="UNKNOWN", why="scope model and library disagree; both outcomes are allowed by C20")
-                if len(diffs) < 20:
-                    diffs.append(rec)
+                diffs.append(rec)
 
     # ---- (c2) fault enumeration over the scenario catalogue
     listing = vlib.run_driver(impl, ["list"], jobs=1)[0].split(" ")
@@ -265,18 +231,68 @@ def run(ctx, vlib):
         if ACCEPT.match(a) or a == "NA":
             # MessagePack is prefix-free: a strict prefix that loads is a failure of the stated property
             if ax == "trunc" and a == "OK" and t[1].startswith("mp_"):
-                if len(failing) < 10:
-                    failing.append(dict(driver="fault", case=l, implementation=a, expected="EXC(<category>): every strict prefix of a MessagePack document must be rejected",
-                                        judge="FAIL", why="a strict prefix of a MessagePack document was loaded without an error"))
+                failing.append(dict(driver="fault", case=l, implementation=a, expected="EXC(<category>): every strict prefix of a MessagePack document must be rejected",
+                                    judge="FAIL", why="a strict prefix of a MessagePack document was loaded without an error"))
             continue
         kid = explain(known, l, a) if a.startswith(("TERMINATE", "HANG")) else None
         if kid:
             term_by.setdefault(kid, []).append((l, a))
             continue
-        if len(failing) < 10:
-            failing.append(dict(driver="fault", case=l, implementation=a, expected="OK or EXC(<category>)", judge="FAIL",
-                                why="%s at this fault point: the failure does not reach the caller as a catchable exception%s" % (
-                                    a.split("(")[0], "" if a.startswith("TERMINATE") else " / memory is leaked or corrupted")))
+        failing.append(dict(driver="fault", case=l, implementation=a, expected="OK or EXC(<category>)", judge="FAIL",
+                            why="%s at this fault point: the failure does not reach the caller as a catchable exception%s" % (
+                                a.split("(")[0], "" if a.startswith("TERMINATE") else " / memory is leaked or corrupted")))
+    return dict(cases=cases, oi=oi, om=om, flines=flines, fo=fo, failing=failing, diffs=diffs, nontrivial=nontrivial,
+                term_by=term_by, scenarios=len(scen))
+
+
+def run(ctx, vlib):
+    inv = IC.current_inventory()
+    impl = IC.build_fault(vlib)
+    model = vlib.build_model("inv")
+    rng = ctx["rng"]
+    notes, known_lines = [], []
+    classes = {}
+    known = IC.load_known(vlib, "C20")
+
+    # ---- what the inventory says (names for the report; the verdict is T_C20_throwing_dtors / T_C20_noexcept_callers)
+    new_dtors = None
+    new_noexcept = None
+    if inv is not None:
+        exp = IC.expected_throwing_dtors() or []
+        cur = [(d["name"], d["callees"]) for d in inv["dtors"] if d["callees"] or d["noexcept_false"]]
+        new_dtors = ["%s -> %s" % (n, ", ".join(c)) for (n, c) in cur if (n, c) not in exp]
+        gone = ["%s" % n for (n, c) in exp if (n, c) not in cur]
+        if new_dtors:
+            notes.append("destructors calling possibly-throwing code that are not in the expected list: " + "; ".join(new_dtors))
+        if gone:
+            notes.append("expected throwing destructors no longer found (rename or repair): " + "; ".join(gone))
+        expn = IC.coq_eval("expected_noexcept_callers", "InvSpec") or []
+        new_noexcept = ["%s -> %s" % (d["name"], ", ".join(d["callees"])) for d in inv.get("noexcept_fns", []) if d["name"] not in expn]
+        if new_noexcept:
+            notes.append("noexcept functions calling possibly-throwing code that are not in the expected list: " + "; ".join(new_noexcept))
+        if inv.get("errors"):
+            notes.append("inventory: clang failed on %s" % ", ".join(e["label"] for e in inv["errors"]))
+        classes["inventory: noexcept functions with a body"] = inv.get("noexcept_fn_count", 0)
+        classes["inventory: noexcept functions calling non-noexcept code"] = len(inv.get("noexcept_fns", []))
+        classes["inventory: destructors with a body"] = len(inv["dtors"])
+        classes["inventory: destructors calling non-noexcept code"] = len(cur)
+    else:
+        notes.append("inventory regeneration disabled (VERIF_NO_REGEN=1)")
+
+    tier = ctx["tier"]
+    r = one_pass(vlib, impl, model, rng, tier, known, classes)
+    broken_obligation = (not ctx.get("proofs_ok", True)) or bool(new_dtors) or bool(new_noexcept)
+    if broken_obligation and not r["failing"] and tier == "quick":
+        # an obligation no longer checks and the quick volume shows no failing input: search at thorough volume
+        notes.append("proof/translator obligation broken and no failing input at quick volume: searched at thorough volume")
+        tier = "thorough"
+        classes = {k: v for k, v in classes.items() if k.startswith("inventory")}
+        r = one_pass(vlib, impl, model, rng, tier, known, classes)
+    cases, oi, om, flines, fo = r["cases"], r["oi"], r["om"], r["flines"], r["fo"]
+    term_by = r["term_by"]
+    # the shortest failing inputs make the best replays
+    failing = sorted(r["failing"], key=lambda f: (len(f["case"]), f["case"]))[:3]
+    diffs = r["diffs"][:20]
 
     # ---- known findings: witness replay.  A case ending in " *" is an axis: some position of it (all of them were
     # enumerated above) must show the listed answer — used where the position depends on the allocator's behaviour.
@@ -306,11 +322,12 @@ def run(ctx, vlib):
     if inv is not None:
         samples.append(dict(inventory=[dict(destructor=d["name"], callees=d["callees"]) for d in inv["dtors"] if d["callees"]]))
     nt_fault = sum(1 for a in fo if a != "OK" and a != "NA")
-    return dict(evaluations=len(cases) + len(flines), distinct_nontrivial=len(nontrivial) + nt_fault,
+    return dict(evaluations=len(cases) + len(flines), distinct_nontrivial=len(r["nontrivial"]) + nt_fault,
                 rule="evaluations = model-comparable cases (every truncation of generated {fixstr|fixint -> fixint} MsgPack maps, random in-domain byte strings, random CSV row-width lists) + fault points (scenario x axis x position, each in its own child process); non-trivial = distinct cases on which the outcome is not plain success",
                 samples=samples, classes=classes, failing=failing, diffs=diffs, known_lines=known_lines, notes=notes,
                 broken="correspondence of the scope models (coq/InvModel.v) with the library (drv_fault)",
-                extra=dict(new_throwing_dtors=new_dtors, new_noexcept_callers=new_noexcept, scenarios=len(scen), tier_used=tier,
+                extra=dict(new_throwing_dtors=new_dtors, new_noexcept_callers=new_noexcept, scenarios=r["scenarios"], tier_used=tier,
+                           failing_total=len(r["failing"]),
                            terminate_points_explained={k: len(v) for k, v in term_by.items()}))
 
 
